@@ -130,7 +130,8 @@ class ReplacementFrontend(ConstrainedFrontend):
 
     def downsize(self):
         self._actual_frontend.downsize()
-        self._replacement_cache.clear()
+        # drop what was derived, keep the replacements themselves (_replacement() only consults the cache)
+        self._replacement_cache = dict(self._replacements)
 
     def __getstate__(self):
         return (
